@@ -48,11 +48,13 @@ ROUTE = {
     "d4parse": "dhcp", "sub82p": "dhcp",
     "d4msg": "dhcp4",
     "sub82": "ipoe",
-    "sesspap": "sess", "sesschap": "sess", "fzsess": "sess",
+    "sesspap": "sess", "sesschap": "sess", "fzsess": "sess", "bkdhcp6": "sess", "bkrakick": "sess",
+    "bkl2gw": "ipoe",
     "attr80": "radius", "fzrad": "radius",
     "fzgopkt": "shm",
 }
-MODELLED = sorted(k for k in ROUTE if not k.startswith("fz"))
+MODELLED = sorted(k for k in ROUTE if not k.startswith("fz") and not k.startswith("bk"))
+SCENARIOS = sorted(k for k in ROUTE if k.startswith("bk"))
 FUZZ_ONLY = sorted(k for k in ROUTE if k.startswith("fz"))
 
 
@@ -60,7 +62,9 @@ def route(case):
     return ROUTE.get(case.split(" ", 1)[0], "disp")
 
 
-RULE = ("per entry point (%d modelled + %d crash-fuzz-only): (1) every byte string of length <= 1 and every length-2 string "
+RULE = ("backlog scenarios (bkdhcp6/bkrakick/bkl2gw): bursts of N = 1..40 well-formed frames against each bounded worker pool / "
+        "hand-off queue of internal/pppoe and internal/ipoe while its consumer is held, every handler call under a 1.5 s "
+        "watchdog, then LCP echo, then release and drain; compared with the pool automaton.  Per entry point (%d modelled + %d crash-fuzz-only): (1) every byte string of length <= 1 and every length-2 string "
         "over 20 boundary bytes (thorough: all 65536 length-2 strings for the small PPP/L2TP/tag parsers); (2) structurally valid "
         "messages built by an independent Python encoder, then for every length/offset field of the message every value "
         "0..255 of a 1-byte field and {0..len+6, 255,256,1023,1024,0x7fff,0x8000,0xfffe,0xffff} (thorough: all 65536) of a 2-byte "
@@ -644,6 +648,16 @@ def gen_cases(rng, tier, budget):
         add(case("attr80", [], b"\x2b\x01\x00\x26" + bytes(16) + bytes([1, L]) + bytes(3) + b"\x50\x12" + bytes(16)))
     family(rng, tier, gen_radius, nv, 2 * nm, lambda b: (add(case("attr80", [], b)), add(case("fzrad", [], b))))
 
+    # --- backlog / wedge scenarios: bursts against the bounded worker pools and hand-off queues -------------
+    # bkdhcp6 N,sessions,msgtype (pool of 16 under the session lock); bkrakick N,K; bkl2gw N,K
+    ns = [1, 2, 15, 16, 17, 18, 32, 33, 40] if q else list(range(1, 41)) + [64, 100]
+    for n in ns:
+        for sessions, mt in ((1, 3), (3, 5)) if q else ((1, 3), (1, 1), (2, 6), (3, 5), (5, 8), (17, 3)):
+            add(case("bkdhcp6", [n, sessions, mt]))
+    for n in ns:
+        for k in ((1, 16) if q else (0, 1, 2, 16, 39)):
+            add(case("bkrakick", [n, k]))
+            add(case("bkl2gw", [n, k]))
     # --- gopacket decode through the shm ingress (supporting validation only) --------------------------------
     frames = eth_frames(rng) + eth_frames(rng)
     pool = [f for _, f in frames]
@@ -691,6 +705,18 @@ def nontrivial(case_line, impl):
 
 def classify(case_line, impl, model):
     e = case_line.split(" ", 1)[0]
+    if e.startswith("bk") and impl.startswith("ok ") and model.startswith("ok ") and impl != model:
+        it, mt = impl.split(), model.split()
+        n = case_line.split()[1].split(",")[0]
+        if it[1] != mt[1]:
+            return "P", ("%s: receive handler call #%d of a burst of %s well-formed frames did not return within 1.5 s while the "
+                         "workers were held (handler wedged; session still answers afterwards: %s, pool drained after release: %s)"
+                         % (e, int(it[1]) + 1, n, it[3], it[4]))
+        if it[3] != "1":
+            return "P", "%s: after a burst of %s frames the session no longer answers an LCP Echo-Request" % (e, n)
+        if it[4] != "1":
+            return "P", "%s: workers did not drain after the provider answered (burst of %s)" % (e, n)
+        return "P", "%s: %s requests dispatched, the bounded pool admits %s" % (e, it[2], mt[2])
     if impl in ("panic", "hang"):
         return "P", "%s: the call %s on this input (model: %s)" % (e, "panicked" if impl == "panic" else "did not return within 2 s", model[:120])
     if impl.startswith("skipped"):
@@ -722,6 +748,14 @@ def signature(case_line, impl, models):
 
 def shrink(case_line):
     t = case_line.split()
+    if t[0].startswith("bk"):
+        a = [int(x) for x in t[1].split(",")]
+        for n in sorted(set([a[0] // 2, a[0] - 1, 17, 16]) - {a[0]}):
+            if 0 < n < a[0]:
+                yield " ".join([t[0], ",".join(str(x) for x in [n] + a[1:])])
+        if len(a) > 2 and a[1] > 1:
+            yield " ".join([t[0], ",".join(str(x) for x in [a[0], 1] + a[2:])])
+        return
     if len(t) < 3:
         return
     b = _payload(case_line)
@@ -759,5 +793,6 @@ def distribution(cases, impl):
         r["max_len"] = max(r["max_len"], n)
         r["len_le_2"] += n <= 2
     d["_modelled_entries"] = MODELLED
+    d["_backlog_scenarios"] = SCENARIOS
     d["_fuzz_only_entries"] = FUZZ_ONLY
     return d
